@@ -10,7 +10,10 @@ import (
 
 	"github.com/hashicorp/hcl-lang/decoder"
 	"github.com/hashicorp/hcl/v2"
+	"github.com/hashicorp/hcl/v2/hclsyntax"
 
+	"verif/harness/gen"
+	m "verif/harness/model"
 	"verif/harness/oracle"
 	"verif/harness/world"
 )
@@ -197,6 +200,62 @@ func BoundaryOffsets(src []byte, max int) []int {
 		if o == len(src) || utf8.RuneStart(src[o]) {
 			out = append(out, o)
 		}
+	}
+	return out
+}
+
+// GenCalls draws n query descriptors over the world, biased to token boundaries.
+func GenCalls(g gen.G, w m.WorldM, n int) []Call {
+	var out []Call
+	type fileRef struct {
+		path int
+		name string
+		offs []int
+	}
+	var files []fileRef
+	for pi, p := range w.Paths {
+		for _, f := range p.Files {
+			fr := fileRef{path: pi, name: f.Name}
+			toks, _ := hclsyntax.LexConfig([]byte(f.Text), f.Name, hcl.InitialPos)
+			for _, tk := range toks {
+				fr.offs = append(fr.offs, tk.Range.Start.Byte, tk.Range.End.Byte)
+			}
+			fr.offs = append(fr.offs, 0, len(f.Text))
+			files = append(files, fr)
+		}
+	}
+	for i := 0; i < n; i++ {
+		fr := files[g.Int(0, len(files)-1)]
+		off := fr.offs[g.Int(0, len(fr.offs)-1)]
+		if g.Chance(30) {
+			off += g.Int(-1, 1)
+		}
+		if off < 0 {
+			off = 0
+		}
+		var k string
+		switch g.Weighted(30, 15, 5, 10, 10, 30) {
+		case 0:
+			k = "completion"
+		case 1:
+			k = "hover"
+		case 2:
+			k = "signature"
+		case 3:
+			k = gen.Pick(g, []string{"gotoDef", "findRefs"})
+		case 4:
+			k = gen.Pick(g, FileKinds)
+		default:
+			k = gen.Pick(g, PathKinds)
+		}
+		c := Call{Kind: k, Path: fr.path, File: fr.name, Byte: off}
+		if k == "completion" {
+			c.Prefill = g.Chance(30)
+		}
+		if k == "wsSymbols" {
+			c.Query = gen.Pick(g, []string{"", "a", "b", "res", "zz"})
+		}
+		out = append(out, c)
 	}
 	return out
 }
